@@ -1,0 +1,12 @@
+//go:build verif
+
+package redis
+
+// Contracts for the redis service (property C01), checked by /verif/govc.
+// Comment-only file: it adds nothing to any build.
+//
+// The command parser recurses once per array level; the depth is bounded (a stack overflow is fatal).
+//@ func parseRedisDataDepth
+//@   decreases maxArrayDepth + 1 - depth
+//@   requires depth >= 0
+//@   modifies *
